@@ -201,9 +201,14 @@ macro_rules! basics {
                 let _ = write!(buf, "{}", x);
             });
             let text = core::str::from_utf8(&buf.b[..buf.n]).unwrap_or("?");
-            let back = <$T>::from_str(text);
-            let mut row = vec![7, CFG, $tc, v as i64, back.is_ok() as i64,
-                               back.map(|y| y.get() as i64).unwrap_or(-1),
+            let (back, al2) = guarded(|| <$T>::from_str(text).map(|y| y.get() as i64));
+            let (backok, backval) = match back {
+                Some(Ok(y)) => (1, y),
+                Some(Err(_)) => (0, -1),
+                None => (PANIC, PANIC),
+            };
+            let al = al + al2;
+            let mut row = vec![7, CFG, $tc, v as i64, backok, backval,
                                if res.is_some() { al as i64 } else { PANIC }, buf.n as i64];
             row.extend(buf.b[..buf.n].iter().map(|b| *b as i64));
             $w.push(&row);
@@ -213,19 +218,23 @@ macro_rules! basics {
             for &b in $ordvals.iter() {
                 let x = <$T>::new(a as $repr);
                 let y = <$T>::new(b as $repr);
-                let cmp = match x.cmp(&y) {
-                    core::cmp::Ordering::Less => 0,
-                    core::cmp::Ordering::Equal => 1,
-                    core::cmp::Ordering::Greater => 2,
-                };
-                let pc = match x.partial_cmp(&y) {
-                    Some(core::cmp::Ordering::Less) => 0,
-                    Some(core::cmp::Ordering::Equal) => 1,
-                    Some(core::cmp::Ordering::Greater) => 2,
-                    None => -1,
-                };
-                $w.push(&[8, CFG, $tc, a as i64, b as i64, (x < y) as i64, (x <= y) as i64, (x == y) as i64,
-                          (x != y) as i64, cmp, pc, x.max(y).get() as i64, x.min(y).get() as i64]);
+                let (cells, al) = guarded(|| {
+                    let cmp = match x.cmp(&y) {
+                        core::cmp::Ordering::Less => 0,
+                        core::cmp::Ordering::Equal => 1,
+                        core::cmp::Ordering::Greater => 2,
+                    };
+                    let pc = match x.partial_cmp(&y) {
+                        Some(core::cmp::Ordering::Less) => 0,
+                        Some(core::cmp::Ordering::Equal) => 1,
+                        Some(core::cmp::Ordering::Greater) => 2,
+                        None => -1,
+                    };
+                    [(x < y) as i64, (x <= y) as i64, (x == y) as i64, (x != y) as i64, cmp, pc,
+                     x.max(y).get() as i64, x.min(y).get() as i64]
+                });
+                let c = cells.unwrap_or([PANIC; 8]);
+                $w.push(&[8, CFG, $tc, a as i64, b as i64, c[0], c[1], c[2], c[3], c[4], c[5], c[6], c[7], al as i64]);
             }
         }
         $w.push(&[9, CFG, $tc, <$T>::MIN.get() as i64, <$T>::MAX.get() as i64, <$T>::default().get() as i64]);
@@ -290,6 +299,22 @@ pub fn table_ints(dir: &str, tier: &str, seed: u64, per: usize) -> (usize, u64) 
     let small: Vec<i64> = (0..16).collect();
     let mid: Vec<i64> = if tier == "thorough" { (0..128).collect() } else { vec![0, 1, 2, 14, 15, 16, 63, 64, 126, 127] };
     let big: Vec<i64> = vec![0, 1, 15, 16, 127, 128, 255, 256, 8191, 8192, 16382, 16383];
+    // ordering of U14: every value against the boundary values (thorough) / a seeded sample (quick)
+    let u14_all: Vec<i64> = if tier == "thorough" { (0..16384).collect() } else { (0..400).map(|_| r.below(16384) as i64).collect() };
+    for &a in &u14_all {
+        for &b in &big {
+            for (x, y) in [(a, b), (b, a)] {
+                let (p, q) = (U14::new(x as u16), U14::new(y as u16));
+                let cmp = match p.cmp(&q) {
+                    core::cmp::Ordering::Less => 0,
+                    core::cmp::Ordering::Equal => 1,
+                    core::cmp::Ordering::Greater => 2,
+                };
+                w.push(&[8, CFG, 2, x, y, (p < q) as i64, (p <= q) as i64, (p == q) as i64, (p != q) as i64, cmp, cmp,
+                         p.max(q).get() as i64, p.min(q).get() as i64, 0]);
+            }
+        }
+    }
 
     // ---- U4 (0)
     try_from_prims!(w, &mut r, nrand, U4, 0, [(u8, 0, true), (u16, 2, true), (i16, 3, true), (u32, 4, false), (i32, 5, false),
